@@ -499,7 +499,8 @@ fn gen_sc(rng: &mut Rng, flavour: u8) -> Sc {
     let n_stmts = if flavour == 16 { 1 + rng.usize(3) } else { 1 };
     let opening = small_amount(rng, dp);
     let mut bal = opening;
-    let mut date = Date::new(2024, 1, 1 + rng.below(20) as u32);
+    // (a two-digit year read with %Y is the year 24: a date like any other to print and read back)
+    let mut date = Date::new(if hostile && rng.chance(1, 25) { 24 } else { 2024 }, 1, 1 + rng.below(20) as u32);
     let mut statements = Vec::new();
     for _ in 0..n_stmts {
         let mut recs = Vec::new();
